@@ -1048,10 +1048,103 @@ pub fn run_c06_stale(sc: &StaleCase) -> Outcome {
     Outcome::pass(true, vec!["new-stream-on-reused-id-survived-old-handle"])
 }
 
+/// The other order of the stale-handle history: the NEWER stream on the reused id is aborted (dropped without shutdown) while the
+/// application still holds the handle of the old one. The abort must be signalled to the peer (Reset) like any other, and once the old
+/// handle is gone as well the id must be free again.
+pub const NEWER_FIRST_CASES: u64 = 3 * 2;
+pub fn newer_first_case(i: u64) -> StaleCase {
+    let how = [0u8, 1, 4][(i % 3) as usize];
+    let local_open = (i / 3) % 2 == 1;
+    let o0 = OptsSpec { rwnd: 4, thr: 2, ..OptsSpec::default() };
+    let id = 0x42u32;
+    let mut w = vec![WOp::Write(2)];
+    if how == 1 {
+        w.push(WOp::Shutdown);
+    }
+    w.push(WOp::Park(2));
+    w.push(WOp::Drop);
+    let mut events = vec![RawEvent { when: Trigger::FromStep(0), what: What::Inject { from: 1, msg: RawMsg::Connect { id, rwnd: 4, port: 5, host: b"s0.".to_vec() } } }];
+    let ending: Vec<RawMsg> = match how {
+        0 => vec![RawMsg::PushDir { id, stream: 0, dir: 0, off: 0, len: 2 }, RawMsg::Reset { id }],
+        1 => vec![RawMsg::PushDir { id, stream: 0, dir: 0, off: 0, len: 2 }, RawMsg::Finish { id }],
+        _ => (0..o0.rwnd + 1).map(|k| RawMsg::PushDir { id, stream: 0, dir: 0, off: k, len: 1 }).collect(),
+    };
+    for (k, m) in ending.into_iter().enumerate() {
+        events.push(RawEvent { when: Trigger::FromStep(6 + 2 * k as u32), what: What::Inject { from: 1, msg: m } });
+    }
+    let new_end = EndScript { w: vec![WOp::Write(3), WOp::Park(1), WOp::Drop], r: vec![] };
+    let (new_spec, rng0) = if local_open {
+        events.push(RawEvent { when: Trigger::Quiescent, what: What::Wake(3) });
+        (StreamSpec { side: 0, port: 6, pad: vec![], delay: 0, park: Some(3), cancel: None, ends: [new_end, EndScript::default()] }, vec![id])
+    } else {
+        events.push(RawEvent { when: Trigger::Quiescent, what: What::Inject { from: 1, msg: RawMsg::Connect { id, rwnd: 4, port: 6, host: b"s1.".to_vec() } } });
+        (StreamSpec { side: 1, port: 6, pad: vec![], delay: 0, park: None, cancel: None, ends: [EndScript::default(), new_end] }, vec![])
+    };
+    events.push(RawEvent { when: Trigger::Quiescent, what: What::Wake(1) }); // the newer stream is aborted
+    events.push(RawEvent { when: Trigger::Quiescent, what: What::Wake(2) }); // then the old handle is dropped
+    events.push(RawEvent { when: Trigger::Quiescent, what: What::Inject { from: 1, msg: RawMsg::Connect { id, rwnd: 4, port: 7, host: b"probe".to_vec() } } });
+    let case = Case {
+        opts: [o0, OptsSpec::default()],
+        rng: [rng0, vec![]],
+        streams: vec![StreamSpec { side: 1, port: 5, pad: vec![], delay: 0, park: None, cancel: None, ends: [EndScript::default(), EndScript { w, r: vec![] }] }, new_spec],
+        raw: Some(RawPolicy { reject_first: 0, ack_connects: Some(4), ack_every: Some(1), answer_close: true, no_ack_streams: vec![] }),
+        events,
+        ..Case::default()
+    };
+    StaleCase { case, how, action: 0, local_open }
+}
+pub fn run_c06_newer_first(sc: &StaleCase) -> Outcome {
+    let case = &sc.case;
+    let run = run_case(case);
+    if !run.quiescent {
+        return inconclusive(&run);
+    }
+    let a = Analysis::new(case, &run);
+    let id = 0x42u32;
+    let tagname = format!("{}:{}", STALE_HOW[sc.how as usize], if sc.local_open { "local-open" } else { "peer-open" });
+    let sent = |e: &Ev, pred: &dyn Fn(&RFrame) -> bool| matches!(e, Ev::Sent { side: 0, msg: WMsg::Frame(f), .. } if pred(f));
+    let recv = |e: &Ev, pred: &dyn Fn(&RFrame) -> bool| matches!(e, Ev::Recv { side: 0, msg: WMsg::Frame(f) } if pred(f));
+    let is_connect = |f: &RFrame| matches!(f, RFrame::Connect { id: i, .. } if *i == id);
+    let connects: Vec<usize> = run.events.iter().enumerate().filter(|(_, e)| sent(&e.ev, &is_connect) || recv(&e.ev, &is_connect)).map(|x| x.0).collect();
+    // the Connect of the second generation: sent by A itself (scripted id; A is free to draw another one) or the peer's second one
+    let second = if sc.local_open { run.events.iter().position(|e| sent(&e.ev, &is_connect)) } else { connects.get(1).copied().filter(|_| connects.len() >= 3) };
+    let Some(p) = second else {
+        return Outcome::pass(false, vec!["second-generation-not-on-this-id"]);
+    };
+    let established = if sc.local_open {
+        a.streams[1].open_ok_at.is_some()
+    } else {
+        run.events[p..].iter().find_map(|e| if sent(&e.ev, &|f| matches!(f, RFrame::Reset { id: i } if *i == id)) { Some(false) } else if sent(&e.ev, &|f| matches!(f, RFrame::Acknowledge { id: i, .. } if *i == id)) { Some(true) } else { None }).unwrap_or(false)
+    };
+    if !established {
+        return Outcome::pass(false, vec!["closed-id-refused-while-handle-held"]);
+    }
+    let e = if sc.local_open { 0 } else { 1 };
+    let Some(dropped_new) = a.streams[1].ends[e].dropped_at else {
+        return Outcome::inconclusive("harness: the newer stream was never dropped");
+    };
+    if a.streams[0].ends[1].dropped_at.is_some_and(|d| d < dropped_new) {
+        return Outcome::inconclusive("harness: the old handle was dropped first");
+    }
+    // the abort of the newer stream reaches the peer
+    // (while the old handle is still held: the system is quiescent again when Wake(2) fires, which is when the old handle goes)
+    let until = run.events.iter().position(|e| matches!(&e.ev, Ev::App(AppEv::Note(n)) if n == "wake 2")).unwrap_or(run.events.len()).max(dropped_new);
+    if !run.events[dropped_new..until].iter().any(|e| sent(&e.ev, &|f| matches!(f, RFrame::Reset { id: i } if *i == id))) {
+        viol!(a, format!("c06-abort-not-signalled:stale-handle-held:{tagname}"), "a stream on flow {id:08x} (an id used before by a stream that ended on the wire - {} - and whose handle the application still holds) was dropped without shutdown, but no Reset was sent: the peer is never told about the abort", STALE_HOW[sc.how as usize]);
+    }
+    // once the old handle is gone as well, the id is free: the probe Connect is acknowledged
+    let probe = *connects.last().unwrap();
+    let answer = run.events[probe..].iter().find_map(|e| if sent(&e.ev, &|f| matches!(f, RFrame::Reset { id: i } if *i == id)) { Some(false) } else if sent(&e.ev, &|f| matches!(f, RFrame::Acknowledge { id: i, .. } if *i == id)) { Some(true) } else { None });
+    if probe > dropped_new && answer != Some(true) && !sc.local_open {
+        viol!(a, format!("c06-slot-leak-after-stale-handle:{tagname}"), "both applications have let go of every stream that used flow {id:08x}, yet a new Connect on it was answered {answer:?}");
+    }
+    Outcome::pass(true, vec!["newer-stream-aborted-before-the-stale-handle"])
+}
+
 pub fn c06(ctx: &Ctx, rep: &mut Report) {
     rep.rule = "rounds (2-8) of open/close cycles separated by quiescence, every order of write/shutdown/drop/read on the two ends, flow ids scripted from {0,1,2,3} so that a freed id is proposed again at once, 0-2 bystander streams (ids >= 100) exchanging data in every round; \
                 oracle: C02/C03/C05 oracles on everything, bystanders complete, and a model of which ids each endpoint must still hold, replayed against the Connect frames on the wire: a freed id must be chosen again by its owner (no leaked local slot) and acknowledged by the peer (no leaked peer slot). \
-                Raw-peer family: after each close order a raw Connect on the same id must be acknowledged. Stale-handle family: the id of a stream that ended on the wire (peer Reset / both Finish / own Reset after an overrun / still live) is used again - by the peer or by the endpoint's own scripted generator - while the application holds the old handle; a live id must be refused, and if the new stream is established it must run its whole script unaffected by the old handle being dropped, shut down or written to. Burst family: 2..300 streams aborted in the same instant must each be reset and reach end-of-stream at the peer. Non-trivial = an id was reused after a close, or a drop happened with data in flight in the other direction. Distinct = distinct case value."
+                Raw-peer family: after each close order a raw Connect on the same id must be acknowledged. Stale-handle family: the id of a stream that ended on the wire (peer Reset / both Finish / own Reset after an overrun / still live) is used again - by the peer or by the endpoint's own scripted generator - while the application holds the old handle; a live id must be refused, and if the new stream is established it must run its whole script unaffected by the old handle being dropped, shut down or written to. The other order as a directed family: the NEWER stream on the reused id is aborted while the old handle is still held - the peer must be told at once (Reset) and the id must be free once both are gone. Burst family: 2..300 streams aborted in the same instant must each be reset and reach end-of-stream at the peer. Non-trivial = an id was reused after a close, or a drop happened with data in flight in the other direction. Distinct = distinct case value."
         .into();
     rep.assumptions = sim_assumptions();
     rep.assumptions.push("cycle family: ids are reused only after both applications let go of the old stream (the precondition of the id-release sentence); reuse while one application still holds the handle of a stream that ended on the wire is generated by the stale-handle family".into());
@@ -1060,6 +1153,7 @@ pub fn c06(ctx: &Ctx, rep: &mut Report) {
     ctx.prop(rep, "raw-probe", t.pick(20_000, 400_000), 200, c06_raw_case, run_c06_raw);
     // the id of a stream that ended on the wire is used again while the application still holds the old handle
     ctx.prop(rep, "stale-handle", t.pick(20_000, 400_000), 0, c06_stale_case, run_c06_stale);
+    ctx.enumerate(rep, "stale-handle-newer-first", NEWER_FIRST_CASES, 3, newer_first_case, run_c06_newer_first);
     // many streams aborted in the same instant (the owner of N streams goes away): every one of them must be reset on the
     // wire and reach end-of-stream at the peer, whatever N is
     const BURST: [usize; 6] = [2, 33, 34, 65, 130, 300];
